@@ -7,6 +7,8 @@ CONSTANTS
   Sizes = {0, 2}
   FlavourSets = {{"SHA1"}, {"SHA256"}, {"SHA1", "SHA256"}}
   Mode = "code"
+  Runs = 1
+  RememberIndex = FALSE
   Emit = TRUE
 INVARIANTS TypeOK Converges NeverCorrupt NoTempLeft AlwaysOldOrNew FaultRaises IndexFaultConverges
            HashFaultWritesNothing GarbledNeverApplied ByPatchesWhenListed
